@@ -181,7 +181,7 @@ Theorem topeer_only_from_send_or_chandata cfg s e s' acts r d x :
   step cfg s e = (s', acts) -> In (ToPeer r d x) acts ->
   (exists src p dat, e = ESend src p dat) \/ (exists src n dat, e = EChanData src n dat).
 Proof.
-  intros H Hin. destruct e as [src tid c rq unk|src p dat|src n dat|relay from dat|dt|relay|csrc|]; eauto; exfalso.
+  intros H Hin. destruct e as [src tid c rq unk|src p dat|src n dat|relay from dat|dt|relay|csrc| |]; eauto; exfalso.
   - apply req_reply in H. eapply no_topeer_in_reply; eauto.
   - cbn [step] in H. apply h_peer_spec in H as [_ [->|(a & _ & _ & _ & [(c & _ & ->)|(_ & pm & _ & ->)])]];
       cbn in Hin; intuition discriminate.
@@ -191,6 +191,7 @@ Proof.
       [eapply no_topeer_in_life; [apply close_events_life|eauto]|destruct Hin].
   - cbn [step] in H. apply h_ctl_close_life in H. eapply no_topeer_in_life; eauto.
   - cbn [step] in H. apply h_srv_close_life in H. eapply no_topeer_in_life; eauto.
+  - cbn [step] in H. inversion H; subst. destruct Hin.
 Qed.
 
 (* ---------- C02: who receives because of a datagram at a relayed address ---------- *)
@@ -199,7 +200,7 @@ Theorem to_client_data_only_from_peer cfg s e s' acts :
   (exists dst p d, In (DataInd dst p d) acts) \/ (exists dst n d, In (ChanDataOut dst n d) acts) ->
   exists relay from d, e = EPeer relay from d.
 Proof.
-  intros H Hin. destruct e as [src tid c rq unk|src p dat|src n dat|relay from dat|dt|relay|csrc|]; eauto; exfalso.
+  intros H Hin. destruct e as [src tid c rq unk|src p dat|src n dat|relay from dat|dt|relay|csrc| |]; eauto; exfalso.
   - apply req_reply in H. rewrite Forall_forall in H.
     destruct Hin as [(dst & p & d & Hin)|(dst & n & d & Hin)]; apply H in Hin; exact Hin.
   - cbn [step] in H. apply h_send_spec in H as [_ [->|(a & q & d & pm & -> & _)]];
@@ -218,6 +219,7 @@ Proof.
     destruct Hin as [(? & ? & ? & Hin)|(? & ? & ? & Hin)]; apply H in Hin; exact Hin.
   - cbn [step] in H. apply h_srv_close_life in H. rewrite Forall_forall in H.
     destruct Hin as [(? & ? & ? & Hin)|(? & ? & ? & Hin)]; apply H in Hin; exact Hin.
+  - cbn [step] in H. inversion H; subst. destruct Hin as [(? & ? & ? & [])|(? & ? & ? & [])].
 Qed.
 
 (* ---------- C03: a request that does not authenticate changes nothing ---------- *)
